@@ -12,6 +12,11 @@ P = {
    technique="Coq theorems on a rule-based promotion model + exhaustive in-Coq tie (vm_compute) + theorem re-proved on table regenerated from traced ONNX graphs",
    ref="DESIGN.md §5 C03"),
 }
+P["C17"] = dict(
+   text="Proof. The domain law (outside_domain f args -> the call raises a TypeError-family exception) is a decidable predicate in Coq over table rows; the table (every element-wise function and operator x every operand tuple: 24x24 dtype pairs, Python scalars in both orders, reflected operators) is regenerated from /repo by tracing on every run and the theorem `forall r in table, not in a named baseline class -> law r` is re-proved on the regenerated table by vm_compute + forallb_forall. The same theorem is proved on the committed model table, with a _refuted lemma for the baseline classes. Thorough adds the eager (data-holding) pass.",
+   note=TB + " The reading of 'not defined for' is coq/Ndx/ElemLaws.v outside_domain. Known findings: 4 classes.",
+   technique="Coq theorem re-proved by reflection on a table regenerated from /repo (trace-time outcome of every function x dtype tuple)",
+   ref="DESIGN.md §5 C17")
 NOT_YET = {}
 props = [json.loads(l) for l in open(V/'properties.jsonl')]
 checks, na = [], []
